@@ -5065,9 +5065,14 @@ class PyCdlib:
 
             (udf_name, udf_parent) = self._udf_name_and_parent_from_path(udf_path_bytes)
 
-            (udf_ident_unused, udf_entry) = self._find_udf_record(udf_path_bytes)
+            (udf_ident, udf_entry) = self._find_udf_record(udf_path_bytes)
             if udf_entry is not None and not udf_entry.is_dir():
                 raise pycdlibexception.PyCdlibInvalidInput('Cannot remove a file with rm_directory (try rm_file instead)')
+
+            if udf_ident is not None:
+                # The descriptor holds the name as it is recorded (Latin-1
+                # or UTF-16), which is what the parent compares against.
+                udf_name = udf_ident.fi
 
             num_extents_to_remove = udf_parent.remove_file_ident_desc_by_name(udf_name,
                                                                               self.logical_block_size)
